@@ -1,5 +1,5 @@
 From Coq Require Import List ZArith Bool Lia.
-From DF Require Import Base.Str Base.Str_proofs Base.Lits Base.Value Base.Value_proofs IO.Csv IO.Codec.
+From DF Require Import Base.Str Base.Str_proofs Base.Lits Base.Value Base.Value_proofs IO.Csv IO.Csv_proofs IO.Codec.
 Import ListNotations.
 Open Scope Z_scope.
 
@@ -148,5 +148,16 @@ Section P.
                  /\ cast_rows schema body = Some rows.
   Proof.
     intros ND Hrows S Hcsv. exists recs. split; [exact Hcsv|]. eapply rows_codec; eassumption.
+  Qed.
+
+  (* the same without the premise: the CSV layer round-trips every table (IO/Csv_proofs.v) *)
+  Theorem dump_load_csv_total schema rows recs :
+    NoDup (map fst schema) ->
+    (forall r, In r rows -> rkeys r = map fst schema /\ forall n t, In (n, t) schema -> typed t (rget0 r n) = true) ->
+    serialise_rows schema rows = Some recs ->
+    exists body, read_csv (write_csv (map fst schema :: recs)) = Ok (map fst schema :: body)
+                 /\ cast_rows schema body = Some rows.
+  Proof.
+    intros ND Hrows S. apply dump_load_csv; try assumption. apply csv_roundtrip.
   Qed.
 End P.
